@@ -18,6 +18,10 @@ CASES = os.path.join(COQ, "cases")
 EVID = os.path.join(VERIF, "evidence")
 REPLAYS = os.path.join(VERIF, "replays")
 REPO = os.environ.get("VERIF_REPO", "/repo").rstrip("/")
+if REPO != "/repo":
+    # a run against another source tree (seeded changes) must not overwrite the evidence of /repo
+    EVID = os.path.join(VERIF, "evidence_other")
+    REPLAYS = os.path.join(VERIF, "replays_other")
 JOBS = int(os.environ.get("VERIF_JOBS", "16"))
 COQ_FLAGS = ["-Q", os.path.join(COQ, "theories"), "FGV", "-w",
              "-notation-overridden,-ambiguous-paths,-deprecated-hint-without-locality"]
